@@ -77,7 +77,7 @@ def run(ctx):
         L = rng.randint(0, 60)
         alphabet = rng.choice([bytes(range(256)), b"8=FIX.4\x019=10=35\x01", b"8=FIX.4.4\x019=5\x0135=0\x0110=1234567890\x01"])
         b = bytes(rng.choice(alphabet) for _ in range(L))
-        dec_in.append(("rnd%d" % i, b + (follow if rng.random() < 0.5 else b""), None))
+        dec_in.append(("rnd%d" % i, b + (follow if rng.random() < 0.5 else b""), None, None, ()))
     # (2) grammar-aware malformed frames + (3) single-byte corruptions, each followed by valid traffic
     peer2 = W.peer_frames(1, start=2)[0]    # the frame that gets corrupted carries number 2
     # frames whose CheckSum needs zero padding (one and two leading zeros): found by varying the payload
@@ -99,7 +99,7 @@ def run(ctx):
             muts = grammar_mutants(f) + rng.sample(muts[len(grammar_mutants(f)):], 2300)
         for name, m in muts:
             rid = "t%d.%s" % (ti, name)
-            dec_in.append((rid, m + follow, f))
+            dec_in.append((rid, m + follow, f, None, tuple(tail)))
             if ti == 0 and (not q or rng.random() < 0.25):
                 data = m + follow
                 chunkings = [[data], [data[:len(m)], data[len(m):]], [bytes([x]) for x in data]] if rng.random() < 0.15 else [[data]]
